@@ -76,23 +76,9 @@ def run(ctx):
     dparam = depth_param_index(crates, FCALL)
     if dparam is None:
         raise CheckerError("FunctionDef::call has no call_depth: usize parameter")
-    # who evaluates LambdaDef.body
-    evaluators = []
-    for name, f in cg.fns.items():
-        if EVAL not in cg.out.get(name, ()):
-            continue
-        fn = M.Fn(f, name)
-        for b in fn.calls_to(EVAL):
-            roots = fn.trace(fn.term(b)["args"][0])
-            for r in roots:
-                proj = r[2] if r[0] in ("param", "local") else r[3] if r[0] in ("call", "agg") else []
-                if "body" in proj:
-                    i = proj.index("body")
-                    # Expr::Lambda { body } is the AST node (projection @Lambda.body); LambdaDef.body is reached through a struct
-                    if i == 0 or proj[i - 1] != "@Lambda":
-                        evaluators.append((name, b, fn))
-    names = sorted({n for n, _, _ in evaluators})
-    ctx.inst("C18.R1", "who-evaluates(LambdaDef.body)", names == [FCALL], "functions passing a LambdaDef's body to evaluate_ast: %s" % names, None)
+    # who evaluates a function body
+    names = who_evaluates_bodies(cg)
+    ctx.inst("C18.R1", "who-evaluates(LambdaDef.body)", names == [FCALL], "functions passing a function body (LambdaDef.body, or the body of a function literal) to evaluate_ast: %s" % names, None)
     # the guard
     guards = []
     for bi, b in enumerate(fc.blocks):
@@ -400,3 +386,20 @@ def read_limit(core, crates):
                     if val is not None:
                         found.append(val + (0 if s_["rv"]["op"] == "Gt" else -1))
     return found[0] if len(found) == 1 else None
+
+
+def who_evaluates_bodies(cg):
+    """functions that hand a function body to evaluate_ast: the body field of a LambdaDef, or the body of an `Expr::Lambda` literal
+    (an immediately-invoked literal evaluated in place bypasses the call protocol: arity check, spread flattening, depth count)"""
+    evaluators = set()
+    for name, f in cg.fns.items():
+        if EVAL not in cg.out.get(name, ()):
+            continue
+        fn = M.Fn(f, name)
+        for b in fn.calls_to(EVAL):
+            roots = fn.trace(fn.term(b)["args"][0])
+            for r in roots:
+                proj = r[2] if r[0] in ("param", "local") else r[3] if r[0] in ("call", "agg") else []
+                if "body" in proj:
+                    evaluators.add(name)
+    return sorted(evaluators)
